@@ -101,6 +101,10 @@ EXPLANATION += (
     " Round 15: the truncation finds the rows of its input through the file's cluster_to_row (R-PROV/rows-through-file-table)."
 )
 
+EXPLANATION += (
+    ' Round 16: the truncation helper addresses rows only through its leaf -> row tables (R-PROV/rows-through-row-tables).'
+)
+
 RULE_TEXT = (
     "one obligation per key of each producer, per required read, per "
     "merge loop, per statistic, per use of the row index")
